@@ -826,7 +826,15 @@ func classify(c Case, out string, refTrace, gotTrace string, depth int) string {
 				refused = true
 			}
 		}
-		if v2.Discard == "" && !refused && (v2.OK || v2.Known != "") {
+		if v2.Discard != "" || refused {
+			continue
+		}
+		if v2.OK {
+			return f.id
+		}
+		// still failing, but only by other listed findings: the rewrite counts when it removed a part of the
+		// failure (the observed trace changed); a rewrite without effect explains nothing
+		if v2.Known != "" && !strings.HasPrefix(v2.Observed, gotTrace+"\n--- output") {
 			return f.id
 		}
 	}
